@@ -111,11 +111,33 @@ def sym_input(eng, L, sigma, prefix):
     return mk([eng.sym_char(f"c{i}", prefix[i] if i < len(prefix) else sigma) for i in range(L)]), None
 
 
-def task_fn(L, sigma, prefix=""):
+GROUP_SIGMA = "Ab\\',"
+
+
+def tmpl_input(eng, tmpl):
+    """words joined by literal separators; a word is one letter over {A,b} or a braced group '{' + n symbolic characters
+    over GROUP_SIGMA + '}' (letters, an escape, an accent character, a comma: special characters and plain braced words
+    with an escape in the middle)"""
+    cs = []
+    for piece in tmpl:
+        if piece[0] == "w":
+            cs.append(eng.sym_char(f"c{len(cs)}", "Ab"))
+        elif piece[0] == "g":
+            cs.append(eng.sym_char(f"c{len(cs)}", "{"))
+            for _ in range(piece[1]):
+                cs.append(eng.sym_char(f"c{len(cs)}", GROUP_SIGMA))
+            cs.append(eng.sym_char(f"c{len(cs)}", "}"))
+        else:
+            for ch in piece[1]:
+                cs.append(eng.sym_char(f"c{len(cs)}", ch))
+    return mk(cs), None
+
+
+def task_fn(L, sigma, prefix="", tmpl=None):
     eng = Engine()
     eng.interpret_also(O.oracle, O.tokenize)
     rec = Recorder(eng)
-    s, g0 = sym_input(eng, L, sigma, prefix)
+    s, g0 = sym_input(eng, L, sigma, prefix) if tmpl is None else tmpl_input(eng, tmpl)
     worlds = eng.run(drv, [s], guard=g0)
     E = eng.I.models.eq_simple
     nval = 0
@@ -272,6 +294,27 @@ def main():
         spread("mw", task_mw, L, LM, SIGMA_BRACE)
     for L in range(5, 0, -1):
         chk.add_task(f"recall-L{L}", task_recall, L=L, sigma=SIGMA_PART)
+    # word-structured names with one braced group (2-3 words, the group in every position, ' ' and ', ' separators)
+    GL = 4 if chk.tier == "quick" else 5
+    chk.bounds["braced-word family"] = f"2..3 words joined by ' ' or ', ', one of them '{{' + 1..{GL} characters over {GROUP_SIGMA!r} + '}}' (optionally followed by a letter), the others one letter over {{A,b}}"
+    import itertools
+    for nw in (2, 3):
+        for gpos in range(nw):
+            for seps in itertools.product((" ", ", "), repeat=nw - 1):
+                for gl in range(GL, 0, -1):
+                    for tail in (False, True):
+                        tm = []
+                        for i in range(nw):
+                            if i:
+                                tm.append(("s", seps[i - 1]))
+                            if i == gpos:
+                                tm.append(("g", gl))
+                                if tail:
+                                    tm.append(("w",))
+                            else:
+                                tm.append(("w",))
+                        nm = f"group-w{nw}-p{gpos}-" + "".join("s" if x == " " else "c" for x in seps) + f"-g{gl}" + ("t" if tail else "")
+                        chk.add_task(nm, task_fn, L=0, sigma=None, tmpl=tm)
     chk.run()
 
 
